@@ -400,6 +400,11 @@ FragSeqs == <<
   <<Def("n", I(0)), Def("len", Fn(<<"v">>, FALSE, <<Inc("n"), Ret(I(42))>>)), ExprS(C1(Id("len"), S("abc"))), ExprS(Arr(<<C1(Id("len"), S("")), Id("n")>>)), ExprS(Id("n"))>>,
   <<Def("string", Fn(<<"v">>, FALSE, <<Ret(Arr(<<Id("v")>>))>>)), ExprS(C1(Id("string"), I(5))), Def("int", I(7)), ExprS(Bin("+", Id("int"), I(1))), ExprS(C1(Id("string"), Id("int")))>>,
   \* the same through var / const declarations and a later re-assignment
+  \* a literal constant of an earlier fragment, its name taken by a parameter / block variable / loop variable in later ones
+  <<Const("a", I(1)), Def("f", Fn(<<"a">>, FALSE, <<Ret(Bin("+", Id("a"), I(0)))>>)), ExprS(C1(Id("f"), I(5))),
+    If(T, <<Def("a", I(7)), Log(Bin("+", Id("a"), I(1)))>>, <<>>), ExprS(Arr(<<Id("a"), C1(Id("f"), I(9))>>))>>,
+  <<ConstG(<<"p", "q">>, Id("iota")), Def("r", Arr(<<>>)), ForIn("p", "q", Arr(<<I(5), I(6)>>), <<Asg("r", Call(Id("append"), <<Id("r"), Bin("+", Id("p"), Id("q"))>>))>>),
+    Try(<<Thr(S("t"))>>, TRUE, "q", <<Asg("r", Call(Id("append"), <<Id("r"), Bin("==", Id("q"), I(1))>>))>>, FALSE, <<>>), ExprS(Arr(<<Id("r"), Id("p"), Id("q")>>))>>,
   \* (a constant declaration emits no code: a fragment ending in one reports whatever value the statement before left, so it is not put last)
   <<Var("len"), Const("int", I(3)), Asg("len", Fn(<<"v">>, FALSE, <<Ret(S("mine"))>>)), ExprS(C1(Id("len"), S("ab"))), ExprS(Arr(<<Id("int"), C1(Id("len"), Arr(<<>>))>>))>>
 >>
